@@ -6,10 +6,11 @@
  *                                   iov table r_buf_alloc computed is an object-bounds violation),
  *   raise(SIGTRAP) (debug_break) -> flag, asserted never to be reached.
  *
- * Shape (concrete, from jobs.py): SIZE ring bytes, MBS min_block_size, NSTEPS history length, NR readers,
- * ROUND0 initial round counter (poked into the freshly allocated, still empty ring: the only way to get near SIZE_MAX),
- * OPS bit mask of step kinds the solver may choose from.
+ * Shape (concrete, from jobs.py): SIZE ring bytes, MBS min_block_size, PAT schedule pattern (one letter per step = set of
+ * operation kinds the solver may pick at that step), NR readers, ROUND0 initial round counter (poked into the freshly
+ * allocated, still empty ring: the only way to get near SIZE_MAX), IOVTAB materialised iov entries (see below).
  * Everything else - which operation each step performs and all its arguments - is in IN.
+ * KF_* defines: blocking assumptions for the defects described in findings/ (each blocks exactly that input class).
  *
  * Ghost state (harness only, never read by the code under test):
  *   sh[i]    sequence number of the stream byte currently stored at ring offset i (-1: never written / header gap)
